@@ -123,3 +123,19 @@ _P["C14"] = {
 }
 _P["C15"]["gen_props"] = ["C15g"]
 _P["C15"]["trusted_base"] = _P["C15"]["trusted_base"] + ["harness/srcfacts for 'lookup returns a fresh record' and 'the registry is never written' (GenProps/C15g.v)"]
+
+_STREAM_TRUSTED = ["Model/Stream.v (de-framer, outbound) and Model/StreamSys.v (goroutine transition system) hand-written from util/stream.go; Go channel and bytes.Buffer semantics taken from the language specification",
+                   "std++ 1.8 (list permutation solver) in the stream-system proofs",
+                   "the scripted in-memory net.Conn of the harness; real schedules are sampled (GOMAXPROCS 1/2/4/16, injected yields)"]
+_P["C10"] = {
+    "explanation": "Theorems C10_* (Properties/C10.v): the de-framer is chunk-independent and yields exactly the frames (induction over frames, any chunking, partial trailing frame); "
+                   "for every reachable state of the reader/parsers/consumer transition system (every interleaving) each buffer has one owner and delivered+in-flight = parses of the frames as multisets; "
+                   "correspondence: the real MessageStream over a scripted connection with all chunkings, failures after any byte, frame sizes beyond the pool buffers.",
+    "trusted_base": _STREAM_TRUSTED, "assumptions": ["partial: the theorem covers all interleavings of the model; Go's scheduler is sampled", "the error-channel clause (exactly one error on failure) is checked on the implementation only"],
+    "harness_timeout": {"quick": 600, "thorough": 3000},
+}
+_P["C11"] = {
+    "explanation": "Theorem C11_wire_is_whole_frames_in_order (Properties/C11.v): for any producers and any interleaving with the single writer the wire is the concatenation of whole encodings and each producer's order is kept "
+                   "(invariant by induction over the trace); correspondence: 1..32 producers on the real MessageStream, every Write is one encoding, the wire re-framed is a merge of the sequences.",
+    "trusted_base": _STREAM_TRUSTED, "assumptions": ["partial: real schedules are sampled"],
+}
